@@ -84,10 +84,11 @@ if __name__ == "__main__":
         names = [n for n in names if n not in done]
     parts = [names[i::nw] for i in range(nw)]
     pids = []
+    base = int(os.environ.get("SEEDED_WID_BASE", "0"))   # lets a second invocation run beside a first one
     for w, part in enumerate(parts):
         pid = os.fork()
         if pid == 0:
-            worker(w, part)
+            worker(base + w, part)
             os._exit(0)
         pids.append(pid)
     for pid in pids:
